@@ -44,6 +44,7 @@ type GenCfg struct {
 	NoRemoteRef  bool
 	NoCustom     bool
 	NoRefs       bool // markers but no references
+	EmptyData    bool // zero-length array data events now and then (valid: they complete nothing)
 	MarkerHeavy  bool // more markers and references, also in key positions
 }
 
@@ -896,6 +897,9 @@ func (g *Gen) chunks(data []byte, elemBits int, cuts []int) {
 
 func (g *Gen) dataEvents(d []byte) {
 	for len(d) > 0 {
+		if g.c.EmptyData && g.r.P(1, 8) {
+			g.emit(Event{K: "ad", D: []byte{}})
+		}
 		n := len(d)
 		if g.r.P(1, 3) {
 			n = 1 + g.r.Intn(len(d))
